@@ -241,3 +241,7 @@ func VerifC07_CloneSetUpgradeBatchReachesTarget() {
 	ctx.UpdatedReadyReplicas = int32(updated)
 	verifrt.Assert(ctx.IsBatchReady() == nil, "C07.cloneset.effectivePartitionSufficesForReadiness")
 }
+
+// C11: readiness is judged against the pods the batch really calls for: the batch context's targets equal the
+// reference computed from the plan (obligations of the C01 batch-context harness of this workload kind).
+func VerifC11_CloneSetReadinessTarget() { VerifC01_CloneSetBatchContext() }
